@@ -440,7 +440,14 @@ def shards(tier):
     nd = len(designations(tier))
     for i in range(0, nd, 40):
         out.append(('desig', i, i + 40))
+    # the meaning of a designation must not depend on what was resolved before it in the same daemon
+    out.append(('desig-seq', 0, 0))
+    out.append(('desig-seq', 1, 0))
     return out
+
+
+SEQ = ['SIGRTMIN+1', 'rtmin', 'SIGRTMIN+2', 'TERM+1', 'term', 15, 'SIGTERM', 'usr1+1', 'USR1', 'SIGRTMIN', 'rtmin+1', '15',
+       'kill', 'KILL+0', 'hup+2', 'HUP']
 
 
 def run_shard(shard, tier):
@@ -469,8 +476,12 @@ def run_shard(shard, tier):
     _, lo, hi = shard
     scratch = Scratch()
     h = Holder(DWorld)
+    todo = designations(tier)[lo:hi]
+    if shard[0] == 'desig-seq':
+        todo = SEQ if lo == 0 else list(reversed(SEQ))
+        todo = todo + todo
     try:
-        for d in designations(tier)[lo:hi]:
+        for d in todo:
             r.cases += 1
             run_designation(r, h, d, scratch)
             if len(r.samples) < 3:
